@@ -1,8 +1,53 @@
-(* C02 - collected lemmas exported to Props.v *)
+(* C02 - collected lemmas exported to Props.v, with non-vacuity examples for their hypotheses. *)
 From Coq Require Import ZArith List Bool Lia.
 Import ListNotations.
-Require Import MV.Lib.Base MV.C02.Defs MV.C02.Gen MV.C02.Model.
+Require Export MV.Lib.Base MV.C02.Defs MV.C02.Gen MV.C02.Model MV.C02.Proofs_Base MV.C02.Proofs_Steps
+               MV.C02.Proofs_Edges MV.C02.Proofs_Faces MV.C02.Proofs_Corners MV.C02.Proofs_Attrs MV.C02.Proofs_Idem.
 Open Scope Z_scope.
 
-Lemma edge_valid_spec a b N : edge_valid a b N = true <-> (a <> b /\ 0 <= a < N /\ 0 <= b < N).
-Proof. unfold edge_valid. rewrite !andb_true_iff, negb_true_iff. lia. Qed.
+(* two tetrahedra sharing a face, one declared face, declared edges among which a self-loop, an out-of-range edge and
+   a duplicate, a dense and a sparse attribute with a custom default *)
+Definition ex_raw : raw :=
+  mkRaw [[0;0;0]; [1;0;0]; [0;1;0]; [0;0;1]; [1;1;1]]
+        [(1, 0); (1, 1); (7, 2); (2, 3); (0, 1)]
+        [(1, Dense 0 [10; 20; 30; 40; 50]); (2, Sparse 7 [(3, 5)])]
+        [[3; 2; 1]] [] []
+        [[0; 1; 2; 3]; [1; 2; 3; 4]] [] [] [] [].
+
+Example ex_prepare : exists r', prepare (true, true) ex_raw = Ok r'
+  /\ edges r' = [(0, 1); (2, 3); (0, 1); (1, 2); (1, 3); (0, 2); (0, 3); (2, 4); (3, 4); (1, 4)]
+  /\ faces r' = [[3; 2; 1]; [0; 2; 3]; [3; 1; 0]; [0; 1; 2]; [2; 4; 3]; [1; 3; 4]; [4; 2; 1]]
+  /\ cf_elem r' = [0; 1; 2; 3; 4; 5; 6; 0] /\ cf_adj r' = [0; 0; 0; 0; 1; 1; 1; 1]
+  /\ map (fun na => (fst na, map (attr_get (snd na)) (zrange 10))) (eattrs r') =
+     [(1, [10; 40; 50; 0; 0; 0; 0; 0; 0; 0]); (2, [7; 5; 7; 7; 7; 7; 7; 7; 7; 7]); (0, [1; 1; 1; 0; 0; 0; 0; 0; 0; 0])].
+Proof. eexists. split; [vm_compute; reflexivity|]. vm_compute. repeat split; reflexivity. Qed.
+
+Example ex_hyps : fc_elem ex_raw = [] /\ cc_elem ex_raw = [] /\ cc_adj ex_raw = [] /\ cf_elem ex_raw = [] /\ cf_adj ex_raw = []
+  /\ Forall cell_ok (cells ex_raw) /\ attr_lookup HARD (eattrs ex_raw) = None
+  /\ added_edges (true, true) ex_raw <> [] /\ added_faces (true, true) ex_raw <> []
+  /\ kept_idx (zlen (vertices ex_raw)) (edges ex_raw) = [0; 3; 4].
+Proof.
+  repeat split; try reflexivity.
+  - repeat constructor; cbn; auto.
+  - vm_compute. discriminate.
+  - vm_compute. discriminate.
+Qed.
+
+Example ex_from_arrays : exists r', from_arrays (true, true) 2 [[0;0]; [1;0]; [0;1]] [(2, 1)] [[0;1;2]] [] = Ok (2, r')
+  /\ vertices r' = [[0;0;0]; [1;0;0]; [0;1;0]] /\ edges r' = [(1, 2); (0, 1); (0, 2)].
+Proof. eexists. split; [vm_compute; reflexivity|]. split; reflexivity. Qed.
+
+Example ex_class_override : exists r', instanciate (true, true) (Some 2) (mkRaw [[0;0;0];[1;1;1]] [(1,0)] [] [] [] [] [] [] [] [] []) = Ok (2, r').
+Proof. eexists. vm_compute. reflexivity. Qed.
+
+(* rebuilding the example: the corner containers of the raw input are well formed, and the second construction returns
+   the very same containers (here even the same attribute representation) *)
+Example ex_rebuild : wf_corners ex_raw /\
+  exists r1 r2, instanciate (true, true) None ex_raw = Ok (3, r1) /\ instanciate (true, true) None (rewrap 3 r1) = Ok (3, r2)
+                /\ edges r2 = edges r1 /\ cf_elem r2 = cf_elem r1 /\ cf_adj r2 = cf_adj r1
+                /\ map (fun na => map (attr_get (snd na)) (zrange 10)) (eattrs r2)
+                   = map (fun na => map (attr_get (snd na)) (zrange 10)) (eattrs r1).
+Proof.
+  split; [split; reflexivity|]. eexists. eexists. split; [vm_compute; reflexivity|].
+  split; [vm_compute; reflexivity|]. vm_compute. repeat split; reflexivity.
+Qed.
